@@ -42,6 +42,19 @@ def mol(atoms, bonds):
     return graph_from_molecule(aa, bb)
 
 
+def hash_twins():
+    """pairs of molecules with the same numbering and bonds that differ only in values the interpreter HASHES alike (integers modulo
+    2**61 - 1): a table keyed by a hash of the molecule's data, without comparing the data, takes one for the other"""
+    P = 2**61 - 1
+    out = []
+    for lo, hi in [(0, P), (1, P + 1), (4, 2**63), (8, 2**64), (2, 2 + 3 * P), (13, 13 + P)]:
+        for sym, n, bonds in (("H", 2, [(0, 1, 1)]), ("C", 3, [(0, 1, 1), (1, 2, 1)]), ("O", 4, [(0, 1, 1), (1, 2, 1), (2, 3, 1), (3, 0, 1)])):
+            a = mol([(sym, lo, 0, 0)] + [(sym, 0, 0, 0)] * (n - 1), bonds)
+            b = mol([(sym, hi, 0, 0)] + [(sym, 0, 0, 0)] * (n - 1), bonds)
+            out.append((f"twin-{sym}-{lo}", a, b))
+    return out
+
+
 def corpus(max_atoms=None):
     out = []
     for f in sorted(glob.glob(os.path.join(REPO, "tests/molfiles/*/*.mol"))):
